@@ -20,11 +20,17 @@
 
 package tally
 
+import "strings"
+
 const (
 	prefixSplitter  = '+'
 	keyPairSplitter = ','
 	keyNameSplitter = '='
+	keyEscape       = '\\'
 	nilString       = ""
+
+	// keySpecials are the bytes that have a meaning in a generated key.
+	keySpecials = "+,=\\"
 )
 
 // KeyForStringMap generates a unique key for a map string set combination.
@@ -58,7 +64,7 @@ func keyForPrefixedStringMapsAsKey(buf []byte, prefix string, maps ...map[string
 	insertionSort(keys)
 
 	if prefix != nilString {
-		buf = append(buf, prefix...)
+		buf = appendKeyPart(buf, prefix)
 		buf = append(buf, prefixSplitter)
 	}
 
@@ -77,19 +83,40 @@ func keyForPrefixedStringMapsAsKey(buf []byte, prefix string, maps ...map[string
 		lastKey = k
 		written = true
 
-		buf = append(buf, k...)
+		buf = appendKeyPart(buf, k)
 		buf = append(buf, keyNameSplitter)
 
 		// Find and write the value for this key. Rightmost map takes
 		// precedence.
 		for j := len(maps) - 1; j >= 0; j-- {
 			if v, ok := maps[j][k]; ok {
-				buf = append(buf, v...)
+				buf = appendKeyPart(buf, v)
 				break
 			}
 		}
 	}
 
+	return buf
+}
+
+// appendKeyPart appends one part of a key (the prefix, a tag name or a tag
+// value). Parts are joined with '+', ',' and '=': a part that contains one of
+// those bytes (or the escape byte itself) is written with each of them
+// preceded by a backslash, so that, for example, the tag value "1,b=2" does
+// not read like a second tag and different tag sets never share a key. Parts
+// without such bytes - nearly all - are written as they are.
+func appendKeyPart(buf []byte, part string) []byte {
+	if !strings.ContainsAny(part, keySpecials) {
+		return append(buf, part...)
+	}
+
+	for i := 0; i < len(part); i++ {
+		switch part[i] {
+		case prefixSplitter, keyPairSplitter, keyNameSplitter, keyEscape:
+			buf = append(buf, keyEscape)
+		}
+		buf = append(buf, part[i])
+	}
 	return buf
 }
 
